@@ -514,6 +514,12 @@ type SumView struct {
 	TileSide int   `json:"tile_side"` // tiles at tile level >= TileCut
 	LowSide  int   `json:"low_side"`  // tiles at tile level <  TileCut
 	TileCut  int   `json:"tile_cut"`
+	// TileN > 0: the server's tiles describe a tree of this size (it may hold more records than
+	// the head it signs into lookup responses); 0: the tiles of HeadN.
+	TileN int64 `json:"tile_n,omitempty"`
+	// Strict: only the tiles that exist at that size are served (full tiles and the one current
+	// partial tile per level); an old partial tile is gone, the client must fetch the full one.
+	Strict bool `json:"strict,omitempty"`
 }
 
 // HonestView serves everything from one side at size n.
@@ -533,6 +539,8 @@ func HonestView(side int, n int64) SumView {
 //	head    serve the response with head kind P1
 //	error   the read fails
 //	empty   zero bytes, no error
+//	junktail  (full tile paths) the full tile with an honest prefix (at most P1 hashes when
+//	        P1 >= 0, else as many as the tree has) and junk in the remaining entries
 type SumFault struct {
 	Path  string `json:"path"`
 	Occ   int    `json:"occ"`
@@ -692,9 +700,54 @@ func (o *sumOps) honest(v SumView, path string) ([]byte, bool) {
 		if lg == nil {
 			return nil, false
 		}
-		return lg.TileData(t, v.HeadN)
+		n := v.HeadN
+		if v.TileN > 0 {
+			n = v.TileN
+		}
+		if v.Strict && t.W != 1<<uint(t.H) {
+			// the current partial tile at this level has width (n >> (H*L)) mod 2^H
+			cnt := n >> uint(t.H*t.L)
+			if cnt>>uint(t.H) != t.N || int(cnt-(cnt>>uint(t.H))<<uint(t.H)) != t.W {
+				return nil, false
+			}
+		}
+		return lg.TileData(t, n)
 	}
 	return nil, false
+}
+
+// junkTail serves the full tile of path with an honest prefix (as wide as the view's tree
+// allows) and junk in the remaining entries: what a server holding unsigned or invented
+// records beyond the signed head would serve.
+func (o *sumOps) junkTail(v SumView, path string, keep int) ([]byte, bool) {
+	if !strings.HasPrefix(path, "/tile/") {
+		return nil, false
+	}
+	t, ok := SumParseTilePath(path[1:])
+	if !ok {
+		return nil, false
+	}
+	full := 1 << uint(t.H)
+	t.W = full
+	var prefix []byte
+	v.Strict = false
+	for w := full; w >= 1; w-- {
+		t2 := t
+		t2.W = w
+		if d, ok := o.honest(v, "/"+SumTilePath(t2)); ok {
+			prefix = d
+			break
+		}
+	}
+	if keep >= 0 && keep*tlog.HashSize < len(prefix) {
+		prefix = prefix[:keep*tlog.HashSize]
+	}
+	out := append([]byte(nil), prefix...)
+	for i := len(prefix) / tlog.HashSize; i < full; i++ {
+		h := sha256.Sum256([]byte(fmt.Sprintf("junk %s %d", path, i)))
+		out = append(out, h[:]...)
+	}
+	return out, true
 }
 
 func sumCorrupt(kind string, p1, p2 int, data []byte) []byte {
@@ -725,6 +778,11 @@ func sumCorrupt(kind string, p1, p2 int, data []byte) []byte {
 		}
 	case "empty":
 		d = d[:0]
+	case "tail":
+		// junk in the second half (for a full tile: entries no signed head may cover)
+		for i := len(d) / 2; i < len(d); i++ {
+			d[i] ^= byte(0x5a + i)
+		}
 	}
 	return d
 }
@@ -756,6 +814,8 @@ func (o *sumOps) serve(path string) ([]byte, bool) {
 			data, ok = o.honest(v, path)
 		case "error":
 			data, ok = nil, false
+		case "junktail":
+			data, ok = o.junkTail(o.view, path, f.P1)
 		default:
 			if ok {
 				data = sumCorrupt(f.Kind, f.P1, f.P2, data)
